@@ -376,7 +376,7 @@ fn c11_run(plan: &Plan) -> R<CaseMeta> {
 }
 
 pub fn run_c11(ctx: &Ctx, acc: &Mutex<Acc>) -> Option<Violation> {
-    let cases = ctx.tier.scale(12, 15);
+    let cases = ctx.tier.scale(40, 8);
     let strat = || {
         (
             any::<bool>(),
